@@ -227,6 +227,16 @@ func runC19(c *Ctx) {
 				n++
 				key := f.Name + "|error-edge#" + itoa(n) + "|" + exprKey(ifs.Cond)
 				cond := exprKey(ifs.Cond)
+				// the read's error variable under whatever name: `readErr == io.EOF` is `err == io.EOF`
+				for _, rd := range f.Calls(loop.Body, false, "csv.Reader.Read") {
+					if eo := f.resultVar(loop.Body, rd, 1); eo != nil {
+						if be, ok := ast.Unparen(ifs.Cond).(*ast.BinaryExpr); ok {
+							if id, ok := ast.Unparen(be.X).(*ast.Ident); ok && f.ObjOf(id) == eo {
+								cond = "err" + be.Op.String() + exprKey(be.Y)
+							}
+						}
+					}
+				}
 				last := ifs.Body.List[len(ifs.Body.List)-1]
 				br, isBr := last.(*ast.BranchStmt)
 				switch {
@@ -509,19 +519,82 @@ func runC19(c *Ctx) {
 	}
 	if mf := c.NeedFunc("C19.5", "csvimport.makeConfig"); mf != nil {
 		key := mf.Name + "|separator-first-rune"
-		okRune := false
+		// every value that can become the separator: the literal's field, stores into the field, and what the
+		// locals on the way are assigned (a helper that maps "\\t" to a tab is substituted here)
+		var cands []ast.Expr
 		for _, lit := range mf.compositeLitsIn(mf.Decl.Body, "csvimport", "importCfg") {
 			if v := kvField(lit, "separator"); v != nil {
-				s := exprKey(v)
-				if strings.HasPrefix(s, "[]rune(") && strings.HasSuffix(s, ")[0]") {
-					okRune = true
+				cands = append(cands, v)
+			}
+		}
+		inspectBody(mf.Decl.Body, func(x ast.Node) bool {
+			if as, ok := x.(*ast.AssignStmt); ok && len(as.Lhs) == len(as.Rhs) {
+				for i, l := range as.Lhs {
+					if sel, ok := ast.Unparen(l).(*ast.SelectorExpr); ok && sel.Sel.Name == "separator" {
+						cands = append(cands, as.Rhs[i])
+					}
 				}
-				if strings.Contains(s, "utf8.DecodeRuneInString") {
-					okRune = true
+			}
+			return true
+		})
+		seenObj := map[types.Object]bool{}
+		okRune, badWhy, unknown := 0, "", ""
+		for len(cands) > 0 {
+			e := ast.Unparen(cands[0])
+			cands = cands[1:]
+			sk := exprKey(e)
+			switch {
+			case mf.constOf(e) != nil:
+				okRune++
+			case strings.HasPrefix(sk, "[]rune(") && strings.HasSuffix(sk, ")[0]"), strings.Contains(sk, "utf8.DecodeRuneInString"):
+				okRune++
+			default:
+				if id, ok := e.(*ast.Ident); ok {
+					if o := mf.ObjOf(id); o != nil && !seenObj[o] {
+						seenObj[o] = true
+						for _, as := range mf.assignsTo(mf.Decl.Body, o) {
+							for i, l := range as.Lhs {
+								if lid, ok := ast.Unparen(l).(*ast.Ident); ok && mf.ObjOf(lid) == o && len(as.Lhs) == len(as.Rhs) {
+									cands = append(cands, as.Rhs[i])
+								}
+							}
+						}
+						continue
+					}
+					continue
+				}
+				// the first BYTE of a string
+				isByte := false
+				ast.Inspect(e, func(y ast.Node) bool {
+					if ix, ok := y.(*ast.IndexExpr); ok {
+						if b, ok := mf.TypeOf(ix.X).Underlying().(*types.Basic); ok && b.Info()&types.IsString != 0 {
+							isByte = true
+						}
+					}
+					return true
+				})
+				if isByte {
+					badWhy = sk
+				} else {
+					unknown = sk
 				}
 			}
 		}
-		c.Check(okRune, "C19.5", key, mf.Decl.Pos(), "separator = first rune of the flag", "the separator is not the first RUNE of the -separator flag (e.g. its first byte): a multi-byte separator becomes a different delimiter and every line parses as one field")
+		switch {
+		case badWhy != "":
+			c.Fail("C19.5", key, mf.Decl.Pos(), "the separator is taken from %s, a BYTE of the -separator flag, not its first rune: a multi-byte separator becomes a different delimiter and every line parses as one field", badWhy)
+		case okRune == 0 || unknown != "":
+			if unknown == "" {
+				unknown = "no recognisable source"
+			}
+			if okRune == 0 && unknown == "no recognisable source" {
+				c.Fail("C19.5", key, mf.Decl.Pos(), "the separator is not the first RUNE of the -separator flag (e.g. its first byte): a multi-byte separator becomes a different delimiter and every line parses as one field")
+			} else {
+				c.Undecided("C19.5", key, "where the separator comes from is not decided (%s)", unknown)
+			}
+		default:
+			c.OK("C19.5", key, mf.Decl.Pos(), okRune, "separator = first rune of the flag (or a rune constant)")
+		}
 	}
 	if tf := c.NeedFunc("C19.5", "csvimport.colDataTypes"); tf != nil {
 		okOrder := false
@@ -872,10 +945,56 @@ func runC20(c *Ctx) {
 			} else {
 				restObj := hk.resultVar(arm, calls[0], 1)
 				stmtsObj := hk.resultVar(arm, calls[0], 0)
+				// the submit decision: the if whose condition looks at the split's rest position (wherever the arm
+				// places it: other tests — a console command, a continuation line — may come first)
 				var submit *ast.IfStmt
-				for _, st := range enter.Body {
-					if ifs, ok := st.(*ast.IfStmt); ok && submit == nil {
-						submit = ifs
+				if restObj != nil {
+					inspectBody(arm, func(y ast.Node) bool {
+						ifs, ok := y.(*ast.IfStmt)
+						if !ok || submit != nil {
+							return true
+						}
+						ast.Inspect(ifs.Cond, func(z ast.Node) bool {
+							if id, ok := z.(*ast.Ident); ok && hk.ObjOf(id) == restObj {
+								submit = ifs
+							}
+							return true
+						})
+						return true
+					})
+				}
+				if submit == nil {
+					for _, st := range enter.Body {
+						if ifs, ok := st.(*ast.IfStmt); ok && submit == nil {
+							submit = ifs
+						}
+					}
+				}
+				// the statements that run when the line IS submitted: the if's body — or, when the if tests the
+				// opposite (something other than blanks follows: continue the line and return), what follows the if
+				var submitRegion ast.Node
+				if submit != nil {
+					submitRegion = submit.Body
+					if be, ok := ast.Unparen(submit.Cond).(*ast.BinaryExpr); ok && (be.Op == token.NEQ || be.Op == token.GTR) && terminates(submit.Body.List) && submit.Else == nil {
+						if cv := hk.constOf(be.Y); cv != nil && cv.String() == "0" {
+							var rest []ast.Stmt
+							inspectBody(arm, func(y ast.Node) bool {
+								var l []ast.Stmt
+								switch b := y.(type) {
+								case *ast.BlockStmt:
+									l = b.List
+								case *ast.CaseClause:
+									l = b.Body
+								}
+								for i, st := range l {
+									if st == ast.Stmt(submit) {
+										rest = l[i+1:]
+									}
+								}
+								return true
+							})
+							submitRegion = &ast.BlockStmt{List: rest, Lbrace: submit.End(), Rbrace: enter.End()}
+						}
 					}
 				}
 				usesRest := false
@@ -890,7 +1009,7 @@ func runC20(c *Ctx) {
 				callBefore := submit != nil && calls[0].Pos() < submit.Pos()
 				appended := false
 				if submit != nil && stmtsObj != nil {
-					ast.Inspect(submit.Body, func(y ast.Node) bool {
+					ast.Inspect(submitRegion, func(y ast.Node) bool {
 						if id, ok := y.(*ast.Ident); ok && hk.ObjOf(id) == stmtsObj {
 							appended = true
 						}
@@ -985,7 +1104,7 @@ func runC20(c *Ctx) {
 				cleared := true
 				inspectBody(arm, func(y ast.Node) bool {
 					if as, ok := y.(*ast.AssignStmt); ok && exprKey(as.Lhs[0]) == recvName(hk)+".line" && strings.Contains(exprKey(as.Rhs[0]), "[:0]") {
-						if submit == nil || as.Pos() < submit.Body.Pos() || as.End() > submit.Body.End() {
+						if submit == nil || as.Pos() < submitRegion.Pos() || as.End() > submitRegion.End() {
 							cleared = false
 						}
 					}
